@@ -43,33 +43,30 @@ Definition prep_nb (n : nat) (nbz : list (list Z)) (sizes : list nat) : res (lis
 (* ---------------- mesh_util.rectangular_neighbors_from: the six region loops as sequential row writes ----------------
    neighbors[p, 0:k] = [...]; neighbors_sizes[p] = k  becomes  rows[p] := [...]  (later writes win); values over Z
    because the index arithmetic (W - 2, pixels - 2W ...) leaves the range for degenerate shapes *)
-Definition rect_write (rows : list (list Z)) (p : Z) (v : list Z) : list (list Z) := upd_set rows (Z.to_nat p) v.
-Definition rect_neighbors (H W : nat) : list (list Z) :=
+Definition rect_write (rows : list (list Z)) (pv : Z * list Z) : list (list Z) := upd_set rows (Z.to_nat (fst pv)) (snd pv).
+Definition rect_writes (H W : nat) : list (Z * list Z) :=
   let h := Z.of_nat H in let w := Z.of_nat W in let pixels := (h * w)%Z in
-  let s := repeat [] (H * W) in
   (* corners *)
-  let s := rect_write s 0 [1; w]%Z in
-  let s := rect_write s (w - 1) [w - 2; w + w - 1]%Z in
-  let s := rect_write s (pixels - w) [pixels - w * 2; pixels - w + 1]%Z in
-  let s := rect_write s (pixels - 1) [pixels - w - 1; pixels - 2]%Z in
+  [ (0, [1; w]); (w - 1, [w - 2; w + w - 1]); (pixels - w, [pixels - w * 2; pixels - w + 1]);
+    (pixels - 1, [pixels - w - 1; pixels - 2]) ]%Z
   (* top edge: for pix in range(1, W - 1) *)
-  let s := fold_left (fun s pix => let p := Z.of_nat pix in rect_write s p [p - 1; p + 1; p + w]%Z) (seq 1 (W - 2)) s in
+  ++ map (fun pix => let p := Z.of_nat pix in (p, [p - 1; p + 1; p + w]))%Z (seq 1 (W - 2))
   (* left edge: for pix in range(1, H - 1) *)
-  let s := fold_left (fun s pix => let p := (Z.of_nat pix * w)%Z in rect_write s p [p - w; p + 1; p + w]%Z) (seq 1 (H - 2)) s in
+  ++ map (fun pix => let p := (Z.of_nat pix * w)%Z in (p, [p - w; p + 1; p + w]))%Z (seq 1 (H - 2))
   (* right edge *)
-  let s := fold_left (fun s pix => let p := (Z.of_nat pix * w + w - 1)%Z in rect_write s p [p - w; p - 1; p + w]%Z) (seq 1 (H - 2)) s in
+  ++ map (fun pix => let p := (Z.of_nat pix * w + w - 1)%Z in (p, [p - w; p - 1; p + w]))%Z (seq 1 (H - 2))
   (* bottom edge: for pix in range(1, W - 1): pixel_index = pixels - pix - 1 *)
-  let s := fold_left (fun s pix => let p := (pixels - Z.of_nat pix - 1)%Z in rect_write s p [p - w; p - 1; p + 1]%Z) (seq 1 (W - 2)) s in
-  (* central *)
-  fold_left (fun s x => fold_left (fun s y => let p := (Z.of_nat x * w + Z.of_nat y)%Z in
-                                              rect_write s p [p - w; p - 1; p + 1; p + w]%Z) (seq 1 (W - 2)) s) (seq 1 (H - 2)) s.
+  ++ map (fun pix => let p := (pixels - Z.of_nat pix - 1)%Z in (p, [p - w; p - 1; p + 1]))%Z (seq 1 (W - 2))
+  (* central: for x in range(1, H - 1): for y in range(1, W - 1) *)
+  ++ flat_map (fun x => map (fun y => let p := (Z.of_nat x * w + Z.of_nat y)%Z in (p, [p - w; p - 1; p + 1; p + w]))%Z (seq 1 (W - 2)))
+              (seq 1 (H - 2)).
+Definition rect_neighbors (H W : nat) : list (list Z) := fold_left rect_write (rect_writes H W) (repeat [] (H * W)).
 (* specification: the 4-neighbourhood of pixel p = r * W + c on an H x W grid, in the order up, left, right, down *)
 Definition grid_neighbors (H W p : nat) : list nat :=
   let r := (p / W)%nat in let c := (p mod W)%nat in
   (if (0 <? r)%nat then [(p - W)%nat] else []) ++ (if (0 <? c)%nat then [(p - 1)%nat] else [])
   ++ (if (c + 1 <? W)%nat then [(p + 1)%nat] else []) ++ (if (r + 1 <? H)%nat then [(p + W)%nat] else []).
 Definition grid_rows (H W : nat) : list (list nat) := map (grid_neighbors H W) (seq 0 (H * W)).
-Definition shapes (lo hi : nat) : list (nat * nat) := flat_map (fun h => map (fun w => (h, w)) (seq lo (hi + 1 - lo))) (seq lo (hi + 1 - lo)).
 
 Section Model.
   Context {O : NumOps}.
@@ -427,12 +424,6 @@ Definition matches_qf (q : qv -> Q) (n : nat) (H : qm) : bool :=
      forallb (fun b => close (@mget QOps H a b)
                              (Qred ((q (@vadd QOps (@unit QOps n a) (@unit QOps n b)) - nth a d 0 - nth b d 0) / 2)))
              (seq (S a) (n - S a))) (seq 0 n).
-
-(* finite sweep used by Props: for every shape in the list the model of rectangular_neighbors_from equals the
-   4-neighbourhood specification, whose neighbour relation is in range and symmetric *)
-Definition rect_shape_ok (hw : nat * nat) : bool :=
-  let rows := grid_rows (fst hw) (snd hw) in
-  list_eqb (list_eqb Z.eqb) (rect_neighbors (fst hw) (snd hw)) (map (map Z.of_nat) rows) && nb_ok rows.
 
 Inductive case :=
 | KMatrix (s : scheme) (o : lobj) (out : res qm)            (* regularization_matrix_from / the util function *)
